@@ -630,3 +630,140 @@ def rule_key1(ctx, rels):
     if n == 0:
         r.ok("KEY1", "modules", ",".join(rels), "",
              "no module-level memo dictionary is written")
+
+
+def rule_neg0(ctx, rels):
+    r = ctx.r
+    r.rule("NEG0", "`x[-k:]` with a COMPUTED k is `x[0:]` -- the whole axis "
+                   "-- when k is 0 (`-0 == 0`): the last k rows of an array "
+                   "are taken as `x[n - k:]` (or the k == 0 case is handled "
+                   "before). In svd_kernel k is the dimension of the kernel, "
+                   "which is 0 for complementary subspaces: every row of V "
+                   "would be returned as a 'kernel vector'")
+    n = 0
+    for rel in rels:
+        mod = ctx.p.module_by_rel(rel)
+        for f in ctx.p.all_functions:
+            if f.module is not mod:
+                continue
+            for sl in ast.walk(f.node):
+                if not (isinstance(sl, ast.Slice) and sl.upper is None
+                        and isinstance(sl.lower, ast.UnaryOp)
+                        and isinstance(sl.lower.op, ast.USub)
+                        and not isinstance(sl.lower.operand, ast.Constant)):
+                    continue
+                n += 1
+                r.analysed(f)
+                k = ast.unparse(sl.lower.operand)
+                r.violation(
+                    "NEG0", f"{f.fq}|-{k}:", loc(f, sl.lower),
+                    ast.unparse(sl)[:60],
+                    f"`[{ast.unparse(sl)}]` takes 'the last {k} entries', "
+                    f"but for {k} == 0 it is `[0:]`, all of them: with an "
+                    "empty kernel (two complementary subspaces, an "
+                    "invertible matrix) every row of V comes back as a "
+                    "kernel vector and the 'intersection' has the full "
+                    "dimension", instance=f"{f.qualname}:-{k}:")
+    if n == 0:
+        r.ok("NEG0", "modules", ",".join(rels), "",
+             "no `[-k:]` slice with a computed k")
+
+
+def rule_viewaug1(ctx, rels):
+    from ..norm import single_defs
+    r = ctx.r
+    r.rule("VIEWAUG1", "a function that RETURNS its result computes it in "
+                       "its own buffers: no augmented assignment (`-=`, "
+                       "`+=`, `*=`, `/=`) on a basic-index VIEW of a "
+                       "parameter (`row = matrices[..., i, :]; row -= ..`). "
+                       "Such a statement (i) overwrites the caller's array "
+                       "with intermediate values and (ii) computes in the "
+                       "caller's dtype: for integer rows `row -= <float "
+                       "projection>` raises UFuncTypeError, where the same "
+                       "numbers as floats work. Procedures (no returned "
+                       "value) that update their argument by contract are "
+                       "not judged")
+    n = 0
+    for rel in rels:
+        mod = ctx.p.module_by_rel(rel)
+        for f in ctx.p.all_functions:
+            if f.module is not mod or f.parent is not None:
+                continue
+            returns = any(isinstance(x, ast.Return) and x.value is not None
+                          and not (isinstance(x.value, ast.Constant)
+                                   and x.value.value is None)
+                          for x in ast.walk(f.node))
+            if not returns:
+                continue
+            params = {p for p in f.params if p not in ("self", "cls")}
+            views = {}
+            for st in ast.walk(f.node):
+                if isinstance(st, ast.Assign) and len(st.targets) == 1 \
+                        and isinstance(st.targets[0], ast.Name):
+                    v = st.value
+                    if isinstance(v, ast.Subscript) \
+                            and isinstance(v.value, ast.Name) \
+                            and v.value.id in params and _basic_index(v.slice):
+                        views.setdefault(st.targets[0].id, []).append(st)
+                    elif isinstance(v, ast.Name) and v.id in params:
+                        views.setdefault(st.targets[0].id, []).append(st)
+            for st in ast.walk(f.node):
+                if not isinstance(st, ast.AugAssign):
+                    continue
+                base = st.target
+                sub = False
+                while isinstance(base, ast.Subscript):
+                    base = base.value
+                    sub = True
+                if not isinstance(base, ast.Name):
+                    continue
+                name = base.id
+                src = None
+                if name in views:
+                    # every binding of the local is a view of a parameter
+                    binds = [s for s in ast.walk(f.node)
+                             if isinstance(s, ast.Assign)
+                             and any(isinstance(t, ast.Name) and t.id == name
+                                     for t in s.targets)]
+                    if len(binds) == len(views[name]):
+                        src = dotted(views[name][0].value)
+                elif name in params and sub and not any(
+                        isinstance(s, ast.Assign) and any(
+                            isinstance(t, ast.Name) and t.id == name
+                            for t in s.targets) for s in ast.walk(f.node)):
+                    src = name
+                if src is None:
+                    continue
+                n += 1
+                r.analysed(f)
+                r.violation(
+                    "VIEWAUG1", f"{f.fq}|{name}", loc(f, st),
+                    dotted(st)[:90],
+                    f"`{dotted(st)[:60]}` updates `{name}`, a view of the "
+                    f"parameter ({src}), in place: {f.qualname} overwrites "
+                    "its caller's array with the un-normalised Gram-Schmidt "
+                    "remainders, and with integer rows (find_isometry, "
+                    "timelike_to on small-integer frames) the float "
+                    "projection cannot be subtracted into the int64 view: "
+                    "UFuncTypeError", instance=f"{f.qualname}:{name}")
+    if n == 0:
+        r.ok("VIEWAUG1", "modules", ",".join(rels), "",
+             "no value-returning function updates a view of a parameter "
+             "in place")
+
+
+def _basic_index(sl):
+    elts = sl.elts if isinstance(sl, ast.Tuple) else [sl]
+    for e in elts:
+        if isinstance(e, ast.Slice):
+            continue
+        if isinstance(e, ast.Constant) and (e.value is Ellipsis
+                                            or e.value is None
+                                            or isinstance(e.value, int)):
+            continue
+        if isinstance(e, ast.Name):       # a loop index
+            continue
+        if isinstance(e, ast.UnaryOp) and isinstance(e.operand, ast.Constant):
+            continue
+        return False
+    return True
